@@ -73,10 +73,11 @@ def field_sort(name):
 
 
 class Effect:
-    __slots__ = ("name", "args", "lineno", "st")
+    """entry of the ghost effect trace; `inner` lists the effect names a loop may have produced (loop summary)"""
+    __slots__ = ("name", "args", "lineno", "st", "res", "inner")
 
-    def __init__(self, name, args, lineno, st):
-        self.name, self.args, self.lineno, self.st = name, args, lineno, st
+    def __init__(self, name, args, lineno, st, res=None, inner=()):
+        self.name, self.args, self.lineno, self.st, self.res, self.inner = name, args, lineno, st, res, tuple(inner)
 
 
 class State:
